@@ -129,14 +129,18 @@ pub fn worker_main(check: &str, tier: Tier, base: u64, start: u64, stride: u64, 
     let scratch = Scratch::new(&format!("w{start}"));
     let mut i = start;
     let mut since = 0;
+    let mut last_ckpt = std::time::Instant::now();
     while i < runs {
         let seed = base.wrapping_add(i);
         writeln!(f, "B {i}").ok();
         let rec = checks::run_one(check, tier, seed, i, &scratch);
         sum.absorb(i, rec, keep_log);
         since += 1;
-        if since >= 500 {
+        // checkpoints by count and by (monotonic) time, so that a library that crashes or hangs every few
+        // runs does not wipe out everything the worker has seen
+        if since >= 500 || last_ckpt.elapsed().as_millis() >= 1500 {
             since = 0;
+            last_ckpt = std::time::Instant::now();
             writeln!(f, "S {}", serde_json::to_string(&sum).unwrap()).ok();
         }
         i += stride;
